@@ -67,6 +67,7 @@ thanks to `Mark Williams`_ for all his help.
 
 """
 
+import copyreg
 from collections.abc import KeysView, ValuesView, ItemsView
 from itertools import zip_longest
 
@@ -179,6 +180,14 @@ class OrderedMultiDict(dict):
     def __setstate__(self, state):
         self.clear()
         self.update_extend(state)
+
+    def __reduce__(self):
+        # The list of pairs is the whole state. The default reduction
+        # for dict subclasses also replays the (single-valued) dict
+        # items through __setitem__, which made copy.copy/deepcopy
+        # drop all but one value per key, and it skips __new__ (and
+        # __setstate__, when empty) under pickle protocols 0 and 1.
+        return (copyreg.__newobj__, (self.__class__,), self.__getstate__())
 
     def _clear_ll(self):
         try:
